@@ -158,14 +158,14 @@ PROPS['C14'].update({
     'coq_targets': ['Properties/C14.vo', 'Impl/ImplBoard.vo'],
     'obligation_files': ['Properties/C14.v', 'Impl/ImplBoard.v'],
     'level': 'proof',
-    'level_text': 'Proof (Leibniz equality): for every position satisfying the representation invariant, both colours and all clocks in [0, 2^63), decode (encode x) = x; decoding a canonical FEN and re-encoding reproduces the string; Atoi/Itoa inverse over int64. The model codec is compared with Go character by character; the FEN an engine reports after every Move/TakeBack is decoded and compared with the specification game (clock = half-moves since last pawn move or capture, full-move number incremented after Black moves) - that part is differential (theorem with C05 in progress).',
+    'level_text': 'Proof (Leibniz equality): for every position satisfying the representation invariant, both colours and all clocks in [0, 2^63), decode (encode x) = x; decoding a canonical FEN and re-encoding reproduces the string; Atoi/Itoa inverse over int64. The model codec is compared with Go character by character; the FEN an engine reports is the standard FEN of its game (engine_fen_standard: for every engine state refining a specification game the reported string is the encoding of that game s position, side, half-move clock = half-moves since the last pawn move or capture counted on from set-up, full-move number incremented after each Black move - g_clock_since_last, g_fullmove_all); the FEN reported by the implementation after every Move/TakeBack is also decoded and compared with the specification game.',
     'level_note': 'strings.Split/TrimSpace, strconv.Atoi/Itoa, fmt %v and []rune conversion are modelled (Model/Fen.v) and exercised by the correspondence, not proved against the Go library. Trusted: Coq kernel, harness.',
 })
 PROPS['C19'].update({
     'coq_targets': ['Properties/C19.vo', 'Impl/ImplBoard.vo'],
     'obligation_files': ['Properties/C19.v', 'Impl/ImplBoard.v'],
     'level': 'proof',
-    'level_text': 'Proof: the model decoder has an explicit Crash outcome for Go panics and never reaches it, for all strings; every accepted FEN yields a well-formed value (representation invariant, colour w/b, clocks in [0, 2^63)) whose re-encoding decodes to the same value; ParseMove accepts exactly file-rank-file-rank[-promotion] and returns squares < 64; ParseSquare total. The legacy uint8 cursor is refuted with the two strings that crash / yield a nil position. Engine.Move accepted-iff-legal and state-unchanged-on-rejection are checked against the specification on generated positions with all pseudo-legal, random and junk strings (theorem in progress).',
+    'level_text': 'Proof: the model decoder has an explicit Crash outcome for Go panics and never reaches it, for all strings; every accepted FEN yields a well-formed value (representation invariant, colour w/b, clocks in [0, 2^63)) whose re-encoding decodes to the same value; ParseMove accepts exactly file-rank-file-rank[-promotion] and returns squares < 64; ParseSquare total. The legacy uint8 cursor is refuted with the two strings that crash / yield a nil position. Engine.Move accepts a string iff it denotes a legal move of the specification game (engine_move_iff_legal) and leaves the whole engine state unchanged on rejection (engine_move_rejected_unchanged_any); both are also checked on the implementation with all pseudo-legal, random and junk strings.',
     'level_note': 'unicode.IsDigit/IsLetter beyond ASCII are abstracted: every non-ASCII rune in the board field leads to an error in both Go and the model (argued in Lemmas/FenLemmas, exercised with Arabic-Indic / full-width / astral runes). UTF-8 decoding is Go s. Trusted: Coq kernel, harness (panics are caught by recover and reported as CRASH).',
 })
 
